@@ -28,6 +28,8 @@ func propC18(c *Ctx, r *Report) {
 	rulePublishAfterCommit(c, sa, r, "C18-R3/publish-after-commit")
 	ruleAPIWritesNothingSyncReads(c, newSharedAnalysis(c), r, "C18-R5/api-leaves-no-state")
 	ruleOneSnapshotPerResponse(c, r, cat, "C18-R7/one-snapshot-per-listing")
+	ruleDSNLocking(c, r, "C18-R8/handles-lock")
+	ruleGlobalAddressEscapes(c, r, "C18-R9/globals-not-exposed")
 	{
 		scope := map[*ssa.Function]bool{}
 		for f := range c.RSync {
@@ -212,39 +214,12 @@ func propC09(c *Ctx, r *Report) {
 	}
 	// a restart by itself changes nothing in the ledger: the statements reachable from NewPegnetd that write are the
 	// schema set-up and the legacy fork markers, nothing else
-	r.rule("C09/startup-writes", 1, "start-up writes only schema objects and legacy fork markers")
-	{
-		cat := buildSQLCat(c)
-		rs := c.reach(c.Startup)
-		rs[c.Startup] = true
-		n := 0
-		ordn := newOrdinals()
-		for _, st := range cat.Stmts {
-			if !rs[st.Fn] || !st.isWrite() {
-				continue
-			}
-			n++
-			key := fmt.Sprintf("%s %s %s", fname(st.Fn), st.Verb, st.Table)
-			cons := fmt.Sprintf("%s %s", key, ord(ordn.next(key)))
-			switch {
-			case st.Verb == "CREATE" || st.Verb == "CREATE-INDEX" || st.Verb == "ALTER" || st.Verb == "DROP":
-				r.okNT("C09/startup-writes", cons, c.ipos(st.Site), "schema object")
-			case st.Table == "pn_sync_version" && st.Verb == "INSERT":
-				r.okNT("C09/startup-writes", cons, c.ipos(st.Site), "legacy fork marker / version row")
-			default:
-				if why, ok := startupWriteAudited[fname(st.Fn)+" "+st.Verb+" "+st.Table]; ok {
-					r.audited("C09/startup-writes", cons, c.ipos(st.Site), why)
-				} else {
-					r.viol("C09/startup-writes", cons, c.ipos(st.Site), "start-up executes `"+oneLine(st.Text)+"`: restarting the daemon changes ledger state, so the result of a sync depends on where it was restarted")
-				}
-			}
-		}
-		r.Extra["startup_write_statements"] = n
-	}
+	ruleStartupWrites(c, r, "C09/startup-writes")
 	// the averages do not depend on an era test or on the wrong height (shared with C07): both make the cache state,
 	// and with it the pricing, depend on where the process was started
 	ruleAveragesEraFree(c, r, "C09/averages-era-free")
 	ruleHoldingWindow(c, r, "C09/averages-height")
+	ruleLoopCarriedDecisions(c, r, computeEffects(c), "C09/loop-carried-decisions")
 	r.rule("C09/config-stable", 1, "no activation/config global is written while the daemon runs")
 	n := 0
 	for _, a := range sa.Acc {
@@ -439,4 +414,38 @@ func windowSize(c *Ctx, r *Report, rule string) {
 // start-up statements that write something other than schema objects, each with the reason it cannot change a result
 var startupWriteAudited = map[string]string{
 	"pegnet.txhistoryMigrateLookup1 INSERT pn_history_lookup": "one-off schema migration: copies the rows of the renamed lookup table into its replacement (same rows, new unique key); the lookup table is not read by block processing",
+}
+
+// ruleStartupWrites: the statements reachable from NewPegnetd that write are the schema set-up and the legacy fork
+// markers, nothing else (shared by C09 and C01).
+func ruleStartupWrites(c *Ctx, r *Report, rule string) {
+	r.rule(rule, 1, "start-up writes only schema objects and legacy fork markers")
+	{
+		cat := buildSQLCat(c)
+		rs := c.reach(c.Startup)
+		rs[c.Startup] = true
+		n := 0
+		ordn := newOrdinals()
+		for _, st := range cat.Stmts {
+			if !rs[st.Fn] || !st.isWrite() {
+				continue
+			}
+			n++
+			key := fmt.Sprintf("%s %s %s", fname(st.Fn), st.Verb, st.Table)
+			cons := fmt.Sprintf("%s %s", key, ord(ordn.next(key)))
+			switch {
+			case st.Verb == "CREATE" || st.Verb == "CREATE-INDEX" || st.Verb == "ALTER" || st.Verb == "DROP":
+				r.okNT(rule, cons, c.ipos(st.Site), "schema object")
+			case st.Table == "pn_sync_version" && st.Verb == "INSERT":
+				r.okNT(rule, cons, c.ipos(st.Site), "legacy fork marker / version row")
+			default:
+				if why, ok := startupWriteAudited[fname(st.Fn)+" "+st.Verb+" "+st.Table]; ok {
+					r.audited(rule, cons, c.ipos(st.Site), why)
+				} else {
+					r.viol(rule, cons, c.ipos(st.Site), "start-up executes `"+oneLine(st.Text)+"`: restarting the daemon changes ledger state, so the result of a sync depends on where it was restarted")
+				}
+			}
+		}
+		r.Extra["startup_write_statements"] = n
+	}
 }
